@@ -102,6 +102,14 @@ class Spec:
     def start(self):
         raise NotImplementedError
 
+    #: C06 sets this to observe the caller-owned inputs right before the constructor runs
+    on_inputs = None
+
+    def ready(self, **inputs):
+        if self.on_inputs is not None:
+            self.on_inputs(inputs)
+        return inputs
+
     def twin(self, run):
         raise NotImplementedError
 
@@ -236,7 +244,7 @@ class NetworkSpec(NetFamily):
 
     def start(self):
         A, w = _small_A(self.directed)
-        inputs = {"adjacency": A, "node_weights": w}
+        inputs = self.ready(adjacency=A, node_weights=w)
         obj = self.cls()(adjacency=A, directed=self.directed, node_weights=w, silence_level=SL)
         return Run(self, obj, inputs, {"A": A.copy(), "w": w.copy(), "la_w": None})
 
@@ -274,8 +282,9 @@ class SpatialSpec(NetFamily):
         from pyunicorn.core import SpatialNetwork, Grid
         A, _ = _small_A(False)
         grid = Grid.SmallTestGrid()
+        inputs = self.ready(adjacency=A, grid=grid)
         obj = SpatialNetwork(grid=grid, adjacency=A, directed=False, silence_level=SL)
-        return Run(self, obj, {"adjacency": A, "grid": grid}, {"A": A.copy(), "w": None, "la_w": None})
+        return Run(self, obj, inputs, {"A": A.copy(), "w": None, "la_w": None})
 
     def twin(self, run):
         from pyunicorn.core import SpatialNetwork, Grid
@@ -294,9 +303,10 @@ class GeoSpec(NetFamily):
         from pyunicorn.core import GeoNetwork, GeoGrid
         A, _ = _small_A(False)
         grid = GeoGrid.SmallTestGrid()
+        inputs = self.ready(adjacency=A, grid=grid)
         obj = GeoNetwork(grid=grid, adjacency=A, directed=False, node_weight_type="surface",
                          silence_level=SL)
-        return Run(self, obj, {"adjacency": A, "grid": grid},
+        return Run(self, obj, inputs,
                    {"A": A.copy(), "w": None, "la_w": None, "nwt": "surface"})
 
     def twin(self, run):
@@ -319,8 +329,9 @@ class VisibilitySpec(NetFamily):
     def start(self):
         from pyunicorn.timeseries import VisibilityGraph
         ts = self._ts()
+        inputs = self.ready(time_series=ts)
         obj = VisibilityGraph(ts, silence_level=SL)
-        return Run(self, obj, {"time_series": ts},
+        return Run(self, obj, inputs,
                    {"A": np.asarray(obj.adjacency).copy(), "A_over": False, "w": None, "la_w": None})
 
     def twin(self, run):
@@ -367,8 +378,9 @@ class ResSpec(NetFamily):
         from pyunicorn.core import ResNetwork
         A, R = self._base()
         grid = self._grid()
+        inputs = self.ready(resistances=R, adjacency=A, grid=grid)
         obj = ResNetwork(R, grid=grid, adjacency=A, silence_level=SL)
-        return Run(self, obj, {"resistances": R, "adjacency": A, "grid": grid},
+        return Run(self, obj, inputs,
                    {"A": A.copy(), "R": R.copy(), "w": None, "la_w": None, "nwt": None})
 
     def twin(self, run):
@@ -483,8 +495,9 @@ class ClimateSpec(ClimateFamily):
         from pyunicorn.climate import ClimateNetwork
         from pyunicorn.core import GeoGrid
         grid, sim = GeoGrid.SmallTestGrid(), self._sim()
+        inputs = self.ready(grid=grid, similarity_measure=sim)
         obj = ClimateNetwork(grid=grid, similarity_measure=sim, threshold=0.5, silence_level=SL)
-        return Run(self, obj, {"grid": grid, "similarity_measure": sim}, self.base_model())
+        return Run(self, obj, inputs, self.base_model())
 
     def twin(self, run):
         from pyunicorn.climate import ClimateNetwork
@@ -522,8 +535,9 @@ class DataClimateSpec(ClimateFamily):
     def start(self):
         data = self.data_factory()
         m = self.base_model(extra=dict(self.ctor_extra))
+        inputs = self.ready(data=data)
         obj = self.construct(data, m)
-        return Run(self, obj, {"data": data}, m)
+        return Run(self, obj, inputs, m)
 
     def twin(self, run):
         t = self.construct(self.data_factory(), run.model)
@@ -633,8 +647,9 @@ class CoupledTsonisSpec(DataClimateSpec):
         data, data2 = _long_data(5), _long_data(6)
         m = self.base_model()
         kw = self.common_kw(m)
+        inputs = self.ready(data_1=data, data_2=data2)
         obj = self.klass()(data, data2, **kw)
-        return Run(self, obj, {"data_1": data, "data_2": data2}, m)
+        return Run(self, obj, inputs, m)
 
     def twin(self, run):
         kw = self.common_kw(run.model)
@@ -668,7 +683,8 @@ class ESClimateSpec(ClimateFamily):
     def start(self):
         data = self._data()
         m = self.base_model(thr=0)
-        return Run(self, self.construct(data, m), {"data": data}, m)
+        inputs = self.ready(data=data)
+        return Run(self, self.construct(data, m), inputs, m)
 
     def twin(self, run):
         m = run.model
@@ -728,7 +744,8 @@ class ClimateDataSpec(Spec):
 
     def start(self):
         obs, grid = self._raw()
-        return Run(self, self.make(obs, grid, None), {"observable": obs, "grid": grid}, {"window": None})
+        inputs = self.ready(observable=obs, grid=grid)
+        return Run(self, self.make(obs, grid, None), inputs, {"window": None})
 
     def twin(self, run):
         obs, grid = self._raw()
@@ -763,7 +780,8 @@ class GridSpec(Spec):
     def start(self):
         from pyunicorn.core import Grid
         t, s = self._raw()
-        return Run(self, Grid(t, s, silence_level=SL), {"time_seq": t, "space_seq": s}, {})
+        inputs = self.ready(time_seq=t, space_seq=s)
+        return Run(self, Grid(t, s, silence_level=SL), inputs, {})
 
     def twin(self, run):
         from pyunicorn.core import Grid
@@ -775,7 +793,7 @@ class GeoGridSpec(Spec):
     name = "GeoGrid"
     patterns = {"lat_node": [12.0], "lon_node": [7.0], "dimension": ["lat"],
                 "lon_seq": [np.array([190.0, 10.0, 359.0])],
-                "region": [np.array([0.0, 2.5, 0.0, 350.0, 20.0, 350.0, 20.0, 2.5])]}
+                "region": [np.array([-5.0, -1.0, -5.0, 30.0, 12.0, 30.0, 12.0, -1.0])]}
     exclude = ("coord_sequence_from_rect_grid", "region")
 
     def _raw(self):
@@ -785,7 +803,8 @@ class GeoGridSpec(Spec):
     def start(self):
         from pyunicorn.core import GeoGrid
         t, la, lo = self._raw()
-        return Run(self, GeoGrid(t, la, lo, silence_level=SL), {"time_seq": t, "lat_seq": la, "lon_seq": lo}, {})
+        inputs = self.ready(time_seq=t, lat_seq=la, lon_seq=lo)
+        return Run(self, GeoGrid(t, la, lo, silence_level=SL), inputs, {})
 
     def twin(self, run):
         from pyunicorn.core import GeoGrid
@@ -820,7 +839,7 @@ class RPSpec(Spec):
                "rr": "set_fixed_recurrence_rate", "lrr": "set_fixed_local_recurrence_rate",
                "ans": "set_adaptive_neighborhood_size"}
     kinds = ("thr", "thr_std", "rr", "lrr", "ans")
-    exclude = ("twin_surrogates", "twins", "bootstrap_distance_matrix", "rejection_sampling",
+    exclude = ("bootstrap_distance_matrix", "rejection_sampling",
                "embed_time_series", "legendre_coordinates", "threshold_from_recurrence_rate",
                "threshold_from_recurrence_rate_fast")
     patterns = {"min_dist": [2], "n_surrogates": [2]}
@@ -880,8 +899,9 @@ class RPSpec(Spec):
     def start(self):
         ts = self.ts.copy()
         m = {"ts": ts.copy(), "E": None, "rspec": ("thr", 1.0)}
+        inputs = self.ready(time_series=ts)
         obj = self.klass()(ts, **self.ctor_kw(m))
-        return Run(self, obj, {"time_series": ts}, m)
+        return Run(self, obj, inputs, m)
 
     def base_series(self, m):
         return m["ts"].copy() if m["E"] is None else m["E"].copy()
@@ -1043,8 +1063,9 @@ class CRPSpec(Spec):
     def start(self):
         from pyunicorn.timeseries import CrossRecurrencePlot
         x, y = self.x.copy(), self.y.copy()
+        inputs = self.ready(x=x, y=y)
         obj = CrossRecurrencePlot(x, y, threshold=1.0, silence_level=SL)
-        return Run(self, obj, {"x": x, "y": y}, {"X": None, "Y": None, "rspec": ("thr", 1.0)})
+        return Run(self, obj, inputs, {"X": None, "Y": None, "rspec": ("thr", 1.0)})
 
     def twin(self, run):
         from pyunicorn.timeseries import CrossRecurrencePlot
@@ -1109,8 +1130,9 @@ class JRPSpec(Spec):
     def start(self):
         x, y = self.x.copy(), self.y.copy()
         m = {"rspec": ("thr", (1.0, 1.0))}
+        inputs = self.ready(x=x, y=y)
         obj = self.klass()(x, y, lag=self.lag, silence_level=SL, threshold=(1.0, 1.0))
-        return Run(self, obj, {"x": x, "y": y}, m)
+        return Run(self, obj, inputs, m)
 
     def twin(self, run):
         return self.finish(self.make(run.model), run.model)
@@ -1203,8 +1225,9 @@ class ISRNSpec(NetFamily):
     def start(self):
         from pyunicorn.timeseries import InterSystemRecurrenceNetwork
         x, y = self.x.copy(), self.y.copy()
+        inputs = self.ready(x=x, y=y)
         obj = InterSystemRecurrenceNetwork(x, y, threshold=(1.0, 1.0, 1.0), silence_level=SL)
-        return Run(self, obj, {"x": x, "y": y},
+        return Run(self, obj, inputs,
                    {"spec": ("threshold", (1.0, 1.0, 1.0)), "A": None, "A_over": False, "w": None, "la_w": None})
 
     def twin(self, run):
@@ -1239,7 +1262,8 @@ class SurrogatesSpec(Spec):
     def start(self):
         from pyunicorn.timeseries import Surrogates
         d = self.data.copy()
-        return Run(self, Surrogates(d, silence_level=SL), {"original_data": d},
+        inputs = self.ready(original_data=d)
+        return Run(self, Surrogates(d, silence_level=SL), inputs,
                    {"data": d.copy(), "E": None, "normalized": False})
 
     def twin(self, run):
@@ -1272,7 +1296,8 @@ class EventSeriesSpec(Spec):
     def start(self):
         from pyunicorn.eventseries import EventSeries
         ev = self.ev.copy()
-        return Run(self, EventSeries(ev, taumax=3.0), {"data": ev}, {})
+        inputs = self.ready(data=ev)
+        return Run(self, EventSeries(ev, taumax=3.0), inputs, {})
 
     def twin(self, run):
         from pyunicorn.eventseries import EventSeries
